@@ -114,13 +114,17 @@ class Check(PropertyCheck):
             "truncation at every offset) (20%) and raw bytes (10%); x environment (auth on/off, verdict T/F/credential-equal, "
             "eager/lazy, connect ok/fail, EOF) x segmentation (every segmentation for streams <= 9 bytes, every single "
             "split point, 1-byte mode, random cuts) x completion schedule. distinct = distinct case dict; non-trivial = stream non-empty.")
-    budget = {"quick": 9000, "thorough": 400000}
-    time_budget = {"quick": 30, "thorough": 600}
+    budget = {"quick": 6000, "thorough": 400000}
+    time_budget = {"quick": 18, "thorough": 540}
     fingerprints = ["mitmproxy.proxy.layers.modes:Socks5Proxy", "mitmproxy.proxy.layers.modes:DestinationKnown",
                     "mitmproxy.proxy.layer:Layer.handle_event", "mitmproxy.proxy.layer:NextLayer._handle_event"]
     trusted_base = ["harness/common/world.py as a stand-in for proxy/server.py's command interpreter",
                     "socket.inet_ntop / bytes.decode as the text rendering of addresses and credentials"]
-    parallel = True
+    parallel = False
+
+    def setup(self, tier):
+        # serial in the quick tier (370 cases/s; a fork pool costs more than it gains on a loaded machine)
+        self.parallel = tier == "thorough"
 
     # ------------------------------------------------------------------ implementation runner
     def run_world(self, case, items, defer):
@@ -203,6 +207,11 @@ class Check(PropertyCheck):
         cl = getattr(top, "child_layer", None)
         if cl is not None and any(isinstance(e, events.Start) for e in getattr(cl, "events", [])):
             child_started = True
+        if isinstance(cl, layer.NextLayer) and cl.layer is None and any(isinstance(e, events.ConnectionClosed) for e in cl.events):
+            # the child is a still undecided NextLayer (no byte followed the request): it was *given* the client's
+            # ConnectionClosed and answered with CloseConnection(client) itself — that close is the child's, not Socks5Proxy's
+            if toks and toks[-1] == "X": toks[-1] = "CX"
+            else: toks.append("C?close-not-answered")
         # phase
         he = top._handle_event
         if top._paused is not None:
@@ -347,7 +356,7 @@ class Check(PropertyCheck):
         sent, pre = bytes.fromhex(o["sent"]), ref["prefix"]
         kind = ref["kind"]
         if kind == "connect":
-            if o["phase"] != "relay" or o["closed"]:
+            if o["phase"] != "relay" or (o["closed"] and not case.get("eof")):
                 return [f"valid handshake not accepted: {o}"]
             if not self.addr_matches(o["addr"], ref["dest"]):
                 fails.append(f"server address {o['addr']} is not the requested {ref['dest']}")
